@@ -84,6 +84,15 @@ def step (s : St) (ts : List String) : St × List String :=
     match lossOf (nat! k) (nat! c) (nat! sc) with
     | some l => (s, [b2s (graceful (b! en) (b! nb) l)])
     | none => (s, ["bad-op"])
+  | ["trigger", k, est, lr] =>
+    let tr : Option Trigger := match nat! k with
+      | 0 => some .routeChange | 1 => some .rtcMembership | 2 => some .routeRefresh | 3 => some .softResetOut
+      | 4 => some .localAdd | 5 => some .localDelete | 6 => some .vrfPath | 7 => some .rtcWithdraw | _ => none
+    match tr with
+    | some t =>
+      let q : Peer := { cfgGR := true, cfgNotif := false, cfgLL := false, deferral := 0, est := b! est, localRestarting := b! lr }
+      (s, [b2s (sendsOn q t)])
+    | none => (s, ["bad-op"])
   | ["export", pl, st] => (s, [b2s (exportWithdraws (b! pl) (b! st))])
   | [] => (s, [])
   | _ => (s, ["bad-op"])
